@@ -183,3 +183,5 @@ func (l *Ledger) PartsString(coin uint64) string {
 	}
 	return s
 }
+
+func coinID(id uint64) types.CoinID { return types.CoinID(id) }
